@@ -3,6 +3,7 @@ package main
 import (
 	"fmt"
 	"go/ast"
+	"go/constant"
 	"go/token"
 	"go/types"
 	"sort"
@@ -600,32 +601,61 @@ func putSignalGuard(fn *ssa.Function, s ssa.Instruction, stores []*ssa.Store, le
 		if !ok {
 			return false, "the signal is guarded by a condition that is not a test of the queue length read under the lock"
 		}
+		// the condition compares len(queue) with a small constant; it is an
+		// emptiness test when it is true exactly for n == 0 (len == 0, len < 1,
+		// 1 > len, len <= 0 ...) or exactly for n >= 1 (len != 0, len > 0, len >= 1 ...)
 		var lenCall ssa.Value
-		zero := func(v ssa.Value) bool {
+		konst := func(v ssa.Value) (int64, bool) {
 			k, ok := v.(*ssa.Const)
-			return ok && k.Value != nil && k.Value.String() == "0"
+			if !ok || k.Value == nil || k.Value.Kind() != constant.Int {
+				return 0, false
+			}
+			n, exact := constant.Int64Val(k.Value)
+			return n, exact && n >= 0 && n <= 4
 		}
-		switch {
-		case zero(bo.Y):
-			lenCall = bo.X
-		case zero(bo.X):
-			lenCall = bo.Y
-		default:
+		var kv int64
+		lenLeft := true
+		if n, ok := konst(bo.Y); ok {
+			lenCall, kv = bo.X, n
+		} else if n, ok := konst(bo.X); ok {
+			lenCall, kv, lenLeft = bo.Y, n, false
+		} else {
 			return false, "the signal is guarded by a comparison that is not against 0"
 		}
-		switch bo.Op {
-		case token.EQL:
+		holds := func(n int64) bool {
+			x, y := n, kv
+			if !lenLeft {
+				x, y = kv, n
+			}
+			switch bo.Op {
+			case token.EQL:
+				return x == y
+			case token.NEQ:
+				return x != y
+			case token.LSS:
+				return x < y
+			case token.LEQ:
+				return x <= y
+			case token.GTR:
+				return x > y
+			case token.GEQ:
+				return x >= y
+			}
+			return false
+		}
+		onlyZero, onlyPos := holds(0), !holds(0)
+		for n := int64(1); n <= 8; n++ {
+			if holds(n) {
+				onlyZero = false
+			} else {
+				onlyPos = false
+			}
+		}
+		switch {
+		case onlyZero:
 			want = 0
-		case token.NEQ, token.GTR:
+		case onlyPos:
 			want = 1
-			if bo.Op == token.GTR && !zero(bo.Y) {
-				return false, "unrecognised emptiness test"
-			}
-		case token.LEQ:
-			if !zero(bo.Y) {
-				return false, "unrecognised emptiness test"
-			}
-			want = 0
 		default:
 			return false, "unrecognised emptiness test"
 		}
